@@ -19,11 +19,16 @@ structure Facts (sk : Skeleton) : Prop where
   pubKey   : sk.respPublishKeyIsResCall = true
   pubVal   : sk.respPublishValueIsResValue = true
 
-/-- Source facts: neither loop runs anything that can wait. -/
+/-- Source facts: neither loop runs anything that can wait.  Resolver, handler and `Publish` run in
+    goroutines of their own, and what is left of the loop bodies (between two reads) holds no channel
+    operation, select, lock or wait — which is what lets `reqDeliver` / `resDeliver` be modelled as
+    always enabled when a frame is there, for ANY number of handlers in flight (no admission limit). -/
 structure Async (sk : Skeleton) : Prop where
   resolveGo : sk.reqResolveGoDepth ≠ 0
   handlerGo : sk.reqHandlerGoDepth ≠ 0
   publishGo : sk.respPublishAsync = true
+  reqOnlyRead : sk.reqLoopBlocksOnlyOnRead = true
+  resOnlyRead : sk.respLoopBlocksOnlyOnRead = true
 
 /-- partition of the actions, used only to split the preservation proofs into smaller lemmas -/
 def Act.group : Act → Nat
